@@ -267,7 +267,12 @@ private:
         return false;
       }
 
-      auto prev_prev = prev->prev.load(std::memory_order_relaxed);
+      // This has to be an acquire-load: if we see the DeleteMark that prev's owner has set when it started to remove
+      // prev (9), we must also see the stamp it published when it finished pushing prev (6). Otherwise we can read
+      // a DeleteMark together with an outdated (pending) stamp, the stamp check in mark_next then fails and we wrongly
+      // conclude that b has been removed already - leaving b in the list although its owner considers it removed.
+      // (33) - this acquire-load synchronizes-with the release-stores (4, 5, 9, 21, 28)
+      auto prev_prev = prev->prev.load(std::memory_order_acquire);
       auto prev_stamp = prev->stamp.load(std::memory_order_relaxed);
 
       // check if prev has been removed
